@@ -67,13 +67,12 @@ Section Stmt2.
   Variable okfn : ident -> Prop.
   Variable purev : ident -> bool.
   Hypothesis Hpure : forall f, okfn f -> pure_fn call f.
-  Hypothesis Hinh : f_inherited fl = [].
   Variable m : qmatch.
 
   Notation den2 := (den2 call).
-  Notation Renv2 := (Renv2 call purev).
-  Notation epost2 := (epost2 call purev).
-  Notation esim2 := (esim2 call purev).
+  Notation Renv2 := (Renv2 t fl call purev).
+  Notation epost2 := (epost2 t fl call purev).
+  Notation esim2 := (esim2 t fl call purev).
   Notation fexpr2' := (fexpr2 okfn purev m).
   Notation fattr2' := (fattr2 okfn purev m).
   Notation fstmt2' := (fstmt2 okfn purev m).
@@ -117,7 +116,7 @@ Section Stmt2.
   Notation leval' := (leval t fl glob call).
   Notation exec_attr' := (exec_attr t fl glob call).
   Notation lexec_attr' := (lexec_attr t fl glob call).
-  Notation eval_sim2' := (eval_sim2 t fl glob call okfn purev Hpure Hinh m).
+  Notation eval_sim2' := (eval_sim2 t fl glob call okfn purev Hpure m).
 
   Lemma attr_sim2 : forall fuel le ll tgt a, fattr2' a -> env_rel' le ll -> forall lf, asim2 tgt (exec_attr' fuel le tgt a) (lexec_attr' lf ll a).
   Proof.
@@ -139,7 +138,7 @@ Section Stmt2.
       { destruct HR1 as (A1 & A2 & A3). split; [exact A1|]. split; [|exact A3]. constructor; [constructor|constructor]. }
       rewrite Forall_forall in Hsh. destruct (Hsh sh (find_shorthand_In _ _ _ Esh)) as [Hshv Hsha].
       assert (Hd1' : den2 w1 (purev (sh_var sh)) lv v) by (rewrite Hshv; exact Hd1).
-      apply lres_bind. eapply lres_mono; [apply (unscoped_add_sim2 glob call purev ll (sh_var sh) v lv false _ _ _ _ _ w1 _ pl1 H3 HR2 Hd1' Hb1)|].
+      apply lres_bind. eapply lres_mono; [apply (unscoped_add_sim2 t fl glob call purev ll (sh_var sh) v lv false _ _ _ _ _ w1 _ pl1 H3 HR2 Hd1' Hb1)|].
       intros _ ls3 pl3 (Hb3 & (Sg3 & Sp3 & Ssc3) & Hf3 & w3 & Hp3 & HR3 & _).
       assert (Hin : forall a0, In a0 (sh_attrs sh) -> asim2 tgt (exec_attr' fuel le tgt a0) (lexec_attr' lf ll a0)).
       { intros a0 Hin0. apply IH; [|exact Henv]. apply (All_In _ _ _ Hsha Hin0). }
@@ -209,7 +208,7 @@ Section Stmt2.
   Proof. intros Hp [H1 H2]. split; [exact H1|eapply den2_mono; eauto]. Qed.
   Lemma cells_unforced_mono0 w w' cells : wext0 w w' -> cells_unforced w cells -> cells_unforced w' cells.
   Proof.
-    intros Hp H name. specialize (H name). rewrite (proj2 Hp). destruct (alist_get name cells) as [[pairs| |mp]|]; try exact H.
+    intros Hp H name. specialize (H name). rewrite (wext0_sig _ _ Hp). destruct (alist_get name cells) as [[pairs| |mp]|]; try exact H.
     eapply Forall2_mono_l; [|exact H]. intros pr d. apply pair_ok_mono, wext0_wext, Hp.
   Qed.
   Lemma cells_unforced_ok w cells : cells_unforced w cells -> cells_ok call w cells.
@@ -238,8 +237,8 @@ Section Stmt2.
   Proof.
     intros (_ & Hcells & Hnd & Hss & HP) (_ & (Sg & _ & Ssc) & (F1 & F2 & F3 & F4 & F5) & w' & Hp & HR' & HQ).
     exists w'. split; [exact Hp|]. split; [|exact HQ]. split; [exact HR'|]. split; [rewrite F5; eapply cells_unforced_mono0; eauto|].
-    split; [unfold sig_nodup; rewrite (proj2 Hp); exact Hnd|]. split.
-    - intros n name loc Hin. rewrite (proj2 Hp) in Hin. rewrite Ssc. apply (Hss n name loc Hin).
+    split; [unfold sig_nodup; rewrite (wext0_sig _ _ Hp); exact Hnd|]. split.
+    - intros n name loc Hin. rewrite (wext0_sig _ _ Hp) in Hin. rewrite Ssc. apply (Hss n name loc Hin).
     - rewrite Sg. apply (Pend_mono w w' _ ls ls' (wext0_wext _ _ Hp) F1 F2 F3 F4 HP).
   Qed.
 
@@ -312,7 +311,7 @@ Section Stmt2.
   Lemma xsim2_eager fuel le ll e lf : fexpr2' true e -> env_rel' le ll -> xsim2 eq (eval' fuel le e) (leager t fl glob call lf ll e).
   Proof.
     intros Hf Henv ss p v ss' p' H ls pl [w HR] Hb.
-    eapply lres_mono; [apply (leager_sim2 t fl glob call okfn purev Hpure Hinh m fuel le ll e lf _ _ _ _ _ w ls pl Hf Henv H (proj1 HR) Hb)|].
+    eapply lres_mono; [apply (leager_sim2 t fl glob call okfn purev Hpure m fuel le ll e lf _ _ _ _ _ w ls pl Hf Henv H (proj1 HR) Hb)|].
     intros v' ls' pl' (-> & HP). destruct (rel_step2 _ w tt ss ss' ls tt ls' pl' HR HP) as (w' & _ & HR' & _).
     split; [apply HP|]. split; [exists w'; exact HR'|reflexivity].
   Qed.
@@ -333,7 +332,7 @@ Section Stmt2.
   Lemma xsim2_pop_frame : xsimU2 pop_frame lpop_frame.
   Proof.
     intros ss p u ss' p' H ls pl [w HR] Hb. apply pop_frame_ok in H. destruct H as (f & up & El & -> & ->).
-    eapply lres_mono; [apply (lpop_frame_sim2 call purev w ss ls pl f up (proj1 HR) El Hb)|]. intros [] ls' pl' HP.
+    eapply lres_mono; [apply (lpop_frame_sim2 t fl call purev w ss ls pl f up (proj1 HR) El Hb)|]. intros [] ls' pl' HP.
     destruct (rel_step2 _ w tt ss _ ls tt ls' pl' HR HP) as (w' & _ & HR' & _). split; [apply HP|]. split; [exists w'; exact HR'|exact I].
   Qed.
 
@@ -341,7 +340,7 @@ Section Stmt2.
   Lemma xsim2_unscoped_add ll name v mu : xsimU2 (unscoped_add glob name v mu) (lunscoped_add glob ll name (LValue v) mu).
   Proof.
     intros ss p u ss' p' H ls pl [w HR] Hb.
-    eapply lres_mono; [apply (unscoped_add_sim2 glob call purev ll name v (LValue v) mu _ _ _ _ _ w ls pl H (proj1 HR) (d2_value call w _ v) Hb)|].
+    eapply lres_mono; [apply (unscoped_add_sim2 t fl glob call purev ll name v (LValue v) mu _ _ _ _ _ w ls pl H (proj1 HR) (d2_value call w _ v) Hb)|].
     intros [] ls' pl' HP. destruct (rel_step2 _ w tt ss ss' ls tt ls' pl' HR HP) as (w' & _ & HR' & _).
     split; [apply HP|]. split; [exists w'; exact HR'|exact I].
   Qed.
@@ -351,7 +350,7 @@ Section Stmt2.
     intros Hf Henv ss p u ss' p' H ls pl [w HR] Hb. apply bind_ok in H. destruct H as (x & s1 & p1 & H1 & H2).
     apply lres_bind. eapply lres_mono; [apply (eval_sim2' fuel le ll e _ Hf Henv lf _ _ _ _ _ H1 w ls pl (proj1 HR) Hb)|].
     intros lv ls1 pl1 HP1. destruct (rel_step2 _ w x ss s1 ls lv ls1 pl1 HR HP1) as (w1 & _ & HR1 & Hd).
-    eapply lres_mono; [apply (unscoped_add_sim2 glob call purev ll name x lv mu _ _ _ _ _ w1 ls1 pl1 H2 (proj1 HR1) Hd (proj1 HP1))|].
+    eapply lres_mono; [apply (unscoped_add_sim2 t fl glob call purev ll name x lv mu _ _ _ _ _ w1 ls1 pl1 H2 (proj1 HR1) Hd (proj1 HP1))|].
     intros [] ls' pl' HP. destruct (rel_step2 _ w1 tt s1 ss' ls1 tt ls' pl' HR1 HP) as (w' & _ & HR' & _).
     split; [apply HP|]. split; [exists w'; exact HR'|exact I].
   Qed.
@@ -361,7 +360,7 @@ Section Stmt2.
     intros Hf Henv ss p u ss' p' H ls pl [w HR] Hb. apply bind_ok in H. destruct H as (x & s1 & p1 & H1 & H2).
     apply lres_bind. eapply lres_mono; [apply (eval_sim2' fuel le ll e _ Hf Henv lf _ _ _ _ _ H1 w ls pl (proj1 HR) Hb)|].
     intros lv ls1 pl1 HP1. destruct (rel_step2 _ w x ss s1 ls lv ls1 pl1 HR HP1) as (w1 & _ & HR1 & Hd).
-    eapply lres_mono; [apply (unscoped_set_sim2 glob call purev ll name x lv _ _ _ _ _ w1 ls1 pl1 H2 (proj1 HR1) Hd (proj1 HP1))|].
+    eapply lres_mono; [apply (unscoped_set_sim2 t fl glob call purev ll name x lv _ _ _ _ _ w1 ls1 pl1 H2 (proj1 HR1) Hd (proj1 HP1))|].
     intros [] ls' pl' HP. destruct (rel_step2 _ w1 tt s1 ss' ls1 tt ls' pl' HR1 HP) as (w' & _ & HR' & _).
     split; [apply HP|]. split; [exists w'; exact HR'|exact I].
   Qed.
@@ -381,7 +380,7 @@ Section Stmt2.
     apply lres_bind. rewrite store_add_eq. cbn [lres].
     set (loc := length (l_store ls1)).
     set (sig2 := w_sig w1 ++ [(n, name, loc)]).
-    set (w2 := W (w_rho w1 ++ [(x, false)]) sig2).
+    set (w2 := W (w_rho w1 ++ [(x, false)]) sig2 (w_tree w1) (w_inhl w1)).
     destruct (Sfull_add call w1 sig2 (l_store ls1) lvx x false (ctx) Hst1 Hdx1 (prefix_app _ _)) as (Hx12 & Hst2 & Hnew). fold w2 in Hx12, Hst2, Hnew.
     assert (Hsf : forall name', sig_for name' sig2 = sig_for name' (w_sig w1) ++ (if str_eqb name' name then [(n, loc)] else [])).
     { intros name'. unfold sig2. rewrite sig_for_app. f_equal. unfold sig_for. cbn [filter fst snd]. destruct (str_eqb name' name); reflexivity. }
@@ -400,14 +399,14 @@ Section Stmt2.
     { intros pairs' Hpairs'. unfold cell_set. apply lres_get. unfold set_lscoped, Lazy.upd. apply lres_modify. split; [exact Hb1|].
       exists w2. cbn [set_store l_graph l_locals l_store l_scoped l_edges l_attrs l_prints l_params l_prev]. split; [|split; [|split; [|split]]].
       - (* environments *)
-        split; [exact Hst2|]. split; [rewrite Sl; eapply locals_rel2_mono; eauto|].
+        split; [exact Hst2|]. split; [rewrite Sl; eapply locals_rel2_mono; eauto|]. destruct Hsc1 as [Hws1 Hsc1]. split; [exact Hws1|].
         intros n' name' v' Hl'. destruct (N.eq_dec n' n) as [->|Hn'].
         + destruct (str_eqb_spec name' name) as [->|Hnm].
           * rewrite Lnew in Hl'. inversion Hl'; subst v'. exists loc, false. split; [unfold w2, sig2; cbn [w_sig]; apply in_or_app; right; left; reflexivity|exact Hnew].
           * rewrite Lother in Hl' by congruence. destruct (Hsc1 n name' v' Hl') as (l0 & pb0 & A & B). exists l0, pb0.
-            split; [apply (prefix_In _ _ _ (proj2 Hx12) A)|apply (prefix_nth _ _ _ _ (proj1 Hx12) B)].
+            split; [apply (prefix_In _ _ _ (proj1 (proj2 Hx12)) A)|apply (prefix_nth _ _ _ _ (proj1 Hx12) B)].
         + rewrite Lother in Hl' by congruence. destruct (Hsc1 n' name' v' Hl') as (l0 & pb0 & A & B). exists l0, pb0.
-          split; [apply (prefix_In _ _ _ (proj2 Hx12) A)|apply (prefix_nth _ _ _ _ (proj1 Hx12) B)].
+          split; [apply (prefix_In _ _ _ (proj1 (proj2 Hx12)) A)|apply (prefix_nth _ _ _ _ (proj1 Hx12) B)].
       - (* cells *)
         intros name'. cbn [l_scoped]. rewrite alist_get_set. change (w_sig w2) with sig2. rewrite Hsf. specialize (Hcells1 name'). destruct (str_eqb_spec name' name) as [->|Hnm].
         + destruct (alist_get name (l_scoped ls1)) as [[pairs| |mp]|]; try contradiction.
@@ -507,8 +506,8 @@ Section Stmt2.
     intros (_ & Hcells & Hnd & Hss & Hpr & eops & aopss & g1 & He & Ha & Hg1 & Hg2) Hp (F1 & F2 & F3 & F4 & F5) Hsc HR2 Hst Hops.
     pose proof (wext0_wext _ _ Hp) as Hx.
     split; [exact HR2|]. split; [cbn [lpush_attr l_scoped]; rewrite F5; eapply cells_unforced_mono0; eauto|].
-    split; [unfold sig_nodup; rewrite (proj2 Hp); exact Hnd|].
-    split; [intros n name loc Hin; rewrite (proj2 Hp) in Hin; rewrite Hsc; apply (Hss n name loc Hin)|]. split.
+    split; [unfold sig_nodup; rewrite (wext0_sig _ _ Hp); exact Hnd|].
+    split; [intros n name loc Hin; rewrite (wext0_sig _ _ Hp) in Hin; rewrite Hsc; apply (Hss n name loc Hin)|]. split.
     - cbn [lpush_attr l_prints]. rewrite F4. eapply Forall_impl; [|exact Hpr]. intros st0. apply print_ok2_mono, Hx.
     - exists eops, (aopss ++ [ops]), g1. cbn [lpush_attr l_edges l_attrs l_graph]. rewrite F1, F2, F3. split.
       + eapply Forall2_mono_l; [|exact He]. intros st0 e. apply den_edge2_mono, Hx.
@@ -604,7 +603,7 @@ Section Stmt2.
   Proof.
     intros Hf Henv ss p u ss' p' H ls pl [w HR] Hb. destruct (iterM_mapM _ _ _ _ _ _ _ H) as (us & H').
     apply lres_bind.
-    eapply lres_mono; [apply (trav_sim2 call purev _ _ arg_ok2 (fexpr2' false) arg_ok2_mono (fun e He => print_arg_sim2 fuel le ll lf e He Henv) values Hf _ _ _ _ _ H' w ls pl (proj1 HR) Hb)|].
+    eapply lres_mono; [apply (trav_sim2 t fl call purev _ _ arg_ok2 (fexpr2' false) arg_ok2_mono (fun e He => print_arg_sim2 fuel le ll lf e He Henv) values Hf _ _ _ _ _ H' w ls pl (proj1 HR) Hb)|].
     intros args ls1 pl1 HP. destruct (rel_step2 _ w us ss ss' ls args ls1 pl1 HR HP) as (w1 & _ & HR1 & HF).
     unfold push_lstmt, Lazy.upd. apply lres_modify. split; [apply HP|]. split; [|exact I]. exists w1.
     destruct HR1 as (A & Hcells & Hnd & Hss & Hpr & B). split; [exact A|]. split; [exact Hcells|]. split; [exact Hnd|]. split; [exact Hss|]. split; [|exact B].
